@@ -14,7 +14,7 @@ from concurrent.futures import ThreadPoolExecutor
 from pathlib import Path
 
 VERIF = Path(os.environ.get('VERIF_ROOT', '/verif'))
-REPO = Path('/repo')
+REPO = Path(os.environ.get('VERIF_REPO', '/repo'))
 COQ = VERIF / 'coq'
 BUILD = VERIF / 'build'
 XDIR = BUILD / 'x'
@@ -321,5 +321,5 @@ def write_evidence(pid, ev):
 
 
 def repo_fingerprint():
-    rc, out = sh('git -C /repo rev-parse HEAD; git -C /repo status --porcelain | head -20')
+    rc, out = sh(f'git -C {REPO} rev-parse HEAD; git -C {REPO} status --porcelain | head -20')
     return out.strip()
